@@ -2,6 +2,7 @@ package corecheck
 
 import (
 	"context"
+	"errors"
 	"fmt"
 	"strings"
 	"testing"
@@ -158,4 +159,113 @@ func TestC04Step(t *testing.T) {
 
 func FuzzC04Step(f *testing.F) {
 	ev.Fuzz(f, ev.Opts{Property: "C04", Name: "step"}, genStep, checkStep)
+}
+
+// ---- an action that fails again: the failure that is routed is this one
+
+// RefailCase: the bindings already carry the trace of an earlier failure
+// (a retry loop whose handler did not clear it) when an action fails; "an
+// action failure is routed according to the specification's error
+// settings" - this failure, with its own text, not the earlier one.
+type RefailCase struct {
+	Earlier   string `json:"earlier"`   // text left in actionError / error
+	Now       string `json:"now"`       // text the action fails with
+	Native    bool   `json:"native"`    // native or ECMAScript action
+	Mode      string `json:"mode"`      // branches, node
+	Keys      int    `json:"keys"`      // which of actionError / error are left: 1, 2, 3 (both)
+	UseWalk   bool   `json:"useWalk"`   // Walk instead of Step
+	Permanent bool   `json:"permanent"` // a permanent binding rides along
+}
+
+func genRefail(t *rapid.T) RefailCase {
+	texts := []string{"transient", "fatal", "boom", "Error: transient", "disk full"}
+	c := RefailCase{Earlier: rapid.SampledFrom(texts).Draw(t, "earlier"), Native: rapid.Bool().Draw(t, "native"),
+		Mode: rapid.SampledFrom([]string{"branches", "node"}).Draw(t, "mode"), Keys: rapid.IntRange(1, 3).Draw(t, "keys"),
+		UseWalk: rapid.Bool().Draw(t, "walk"), Permanent: rapid.Bool().Draw(t, "perm")}
+	c.Now = rapid.SampledFrom(texts).Filter(func(s string) bool { return s != c.Earlier }).Draw(t, "now")
+	return c
+}
+
+func checkRefail(c RefailCase) (v ev.Verdict) {
+	var act core.Action
+	var src *core.ActionSource
+	if c.Native {
+		act = &core.FuncAction{F: func(ctx context.Context, bs match.Bindings, props core.StepProps) (*core.Execution, error) {
+			return nil, errors.New(c.Now)
+		}}
+	} else {
+		src = &core.ActionSource{Interpreter: "ecmascript", Source: fmt.Sprintf("throw %q;", c.Now)}
+	}
+	// the handler tells the failures apart by their text
+	pick := &core.Branches{Type: "bindings", Branches: []*core.Branch{
+		{Pattern: map[string]interface{}{"actionError": c.Earlier}, Target: "stale"},
+		{Pattern: map[string]interface{}{"actionError": "?text"}, Target: "fresh"},
+		{Target: "unhandled"}}}
+	spec := &core.Spec{Name: "refail", Nodes: map[string]*core.Node{
+		"try":  {Action: act, ActionSource: src, Branches: &core.Branches{Type: "bindings", Branches: []*core.Branch{{Target: "fine"}}}},
+		"fine": {}, "stale": {}, "fresh": {}, "unhandled": {}}}
+	if c.Mode == "branches" {
+		spec.ActionErrorBranches = true
+		spec.Nodes["try"].Branches = pick
+	} else {
+		spec.ActionErrorNode = "handler"
+		spec.Nodes["handler"] = &core.Node{Branches: pick}
+	}
+	if err := spec.Compile(context.Background(), sm.Interpreters(), true); err != nil {
+		v.Failf("compile: %v", err)
+		return
+	}
+	bs := match.Bindings{"attempt": 2.0}
+	if c.Keys&1 != 0 {
+		bs["actionError"] = c.Earlier
+	}
+	if c.Keys&2 != 0 {
+		bs["error"] = c.Earlier
+	}
+	if c.Permanent {
+		bs["cfg!"] = "keep"
+	}
+	st := &core.State{NodeName: "try", Bs: bs}
+	var to *core.State
+	if c.UseWalk {
+		w, err := spec.Walk(context.Background(), st, nil, &core.Control{Limit: 10}, nil)
+		if err != nil || w == nil || w.To() == nil {
+			v.Failf("Walk: %v", err)
+			return
+		}
+		to = w.To()
+	} else {
+		s, err := spec.Step(context.Background(), st, nil, nil, nil)
+		if err != nil || s == nil || s.To == nil {
+			v.Failf("Step: %v (stride %v)", err, s)
+			return
+		}
+		to = s.To
+		if c.Mode == "node" {
+			// the designated node's own branches decide at the next step
+			s, err = spec.Step(context.Background(), to, nil, nil, nil)
+			if err != nil || s == nil || s.To == nil {
+				v.Failf("Step at the designated node: %v", err)
+				return
+			}
+			to = s.To
+		}
+	}
+	v.Class("mode:" + c.Mode)
+	v.NonTrivial = true
+	got, _ := to.Bs["actionError"].(string)
+	if to.NodeName != "fresh" || !strings.Contains(got, c.Now) {
+		v.Failf("an action failed with %q while the bindings still said %q (in %s); the machine went to %q with actionError %q - the failure to route is the one that just happened", c.Now, c.Earlier, []string{"", "actionError", "error", "actionError and error"}[c.Keys], to.NodeName, got)
+		return
+	}
+	if c.Permanent && to.Bs["cfg!"] != "keep" {
+		v.Failf("the permanent binding did not survive the failure: %v", to.Bs)
+	}
+	return
+}
+
+func TestC04Refail(t *testing.T) {
+	ev.Run(t, ev.Opts{Property: "C04", Name: "refail", Quick: 2000, Thorough: 40000,
+		Rule: "an action (native or ECMAScript) fails with one text while the bindings still carry another text under actionError and/or error (a retry loop whose handler did not clear them); error branches or a designated node tell failures apart by their text; through Step and Walk: the machine must be routed by the failure that just happened; every case is non-trivial"},
+		genRefail, checkRefail)
 }
